@@ -405,6 +405,8 @@ type vObs struct {
 	deliv      map[vNodeKey][]vDelivery
 	problems   [][2]string // (oracle kind, detail) found while observing
 	routers    map[vNodeKey][]string
+	routerPIDs map[vNodeKey][][2]int
+	connKeys   []vNodeKey
 }
 
 var (
@@ -430,7 +432,7 @@ func vUnwrap(c component.Component) *vComp {
 }
 
 func vRun(cfg *vCfg) (obs *vObs) {
-	obs = &vObs{deliv: map[vNodeKey][]vDelivery{}, routers: map[vNodeKey][]string{}}
+	obs = &vObs{deliv: map[vNodeKey][]vDelivery{}, routers: map[vNodeKey][]string{}, routerPIDs: map[vNodeKey][][2]int{}}
 	reg := &vReg{}
 	vCur = reg
 	pcfg := pipelines.Config{}
@@ -593,8 +595,12 @@ func vRun(cfg *vCfg) (obs *vObs) {
 		}
 		if c.kind == 3 {
 			var ids []string
+			obs.connKeys = append(obs.connKeys, k)
+			obs.routerPIDs[k] = [][2]int{}
 			for _, id := range c.routerIDs {
 				ids = append(ids, id.String())
+				ps, pn := vPIDParse(id.String())
+				obs.routerPIDs[k] = append(obs.routerPIDs[k], [2]int{ps, pn})
 			}
 			sort.Strings(ids)
 			obs.routers[k] = ids
@@ -1005,9 +1011,17 @@ func vTerm(cfg *vCfg, obs *vObs) string {
 		}
 		ds = append(ds, vPair(rk.term(), vList(xs)))
 	}
+	var rs []string
+	for _, ck := range obs.connKeys {
+		var ids []string
+		for _, p := range obs.routerPIDs[ck] {
+			ids = append(ids, vPair(vNat(p[0]), vNat(p[1])))
+		}
+		rs = append(rs, vPair(ck.term(), vList(ids)))
+	}
 	cls := obs.class
 	return vPair(vPair(vList(ps), vList(cs)),
-		vPair(vBool(obs.validateOK), vPair(vNat(cls), vPair(vKeys(obs.detail), vPair(vKeys(obs.created), vPair(vKeys(obs.started), vList(ds)))))))
+		vPair(vBool(obs.validateOK), vPair(vNat(cls), vPair(vKeys(obs.detail), vPair(vKeys(obs.created), vPair(vKeys(obs.started), vPair(vList(ds), vList(rs))))))))
 }
 
 // ---- generator -----------------------------------------------------------------------------------------
@@ -1052,15 +1066,20 @@ func vGen(rng *vRand, out *vOut) *vCfg {
 	np = len(cfg.pipes)
 	// connectors: ids 10.., each linking some exporter pipelines to some receiver pipelines
 	nc := rng.Pick(15, 30, 30, 15, 10)
+	if np >= 4 && nc < 4 && rng.Bool() {
+		nc++
+	}
 	mode := rng.Pick(60, 25, 15) // 0 forward links only (acyclic), 1 free links, 2 free + dangling uses
 	for c := 0; c < nc; c++ {
 		k := 10 + c
 		var m uint16
-		switch rng.Pick(50, 20, 30) {
+		switch rng.Pick(45, 15, 30, 10) {
 		case 0:
 			m = 0xffff
 		case 1:
 			m = 0x8421 // same-signal pairs only
+		case 3:
+			m = uint16(rng.U64()|rng.U64()) &^ 0x8421 // cross-signal pairs only
 		default:
 			m = uint16(rng.U64())
 			if rng.Intn(3) > 0 {
@@ -1072,15 +1091,19 @@ func vGen(rng *vRand, out *vOut) *vCfg {
 		nl := 1 + rng.Pick(55, 30, 15)
 		for l := 0; l < nl; l++ {
 			i, j := rng.Intn(np), rng.Intn(np)
-			if mode == 0 {
+			if mode == 0 || rng.Intn(100) < 70 {
+				// forward link (keeps the configuration acyclic)
 				if np == 1 {
-					continue
-				}
-				for i == j {
-					j = rng.Intn(np)
-				}
-				if i > j {
-					i, j = j, i
+					if mode == 0 {
+						continue
+					}
+				} else {
+					for i == j {
+						j = rng.Intn(np)
+					}
+					if i > j {
+						i, j = j, i
+					}
 				}
 			}
 			// prefer supported pairs so that most configurations build
@@ -1192,6 +1215,16 @@ func vStats(out *vOut, cfg *vCfg, obs *vObs) {
 	}
 }
 
+func vOne(out *vOut, cfg *vCfg) {
+	obs := vRun(cfg)
+	ex := vOracle(cfg)
+	term := vTerm(cfg, obs)
+	nontrivial := obs.class != 0 || len(obs.created) > 3
+	out.Case(nontrivial, term)
+	vStats(out, cfg, obs)
+	vCompare(out, term, cfg, obs, ex)
+}
+
 func TestVerifC09(t *testing.T) {
 	out := vOpen()
 	defer out.Close()
@@ -1199,15 +1232,47 @@ func TestVerifC09(t *testing.T) {
 		t.Fatal(err)
 	}
 	rng := vNewRand(9)
-	n := vBudget(450, 12)
+	n := vBudget(450, 10)
 	for i := 0; i < n; i++ {
-		cfg := vGen(rng, out)
-		obs := vRun(cfg)
-		ex := vOracle(cfg)
-		term := vTerm(cfg, obs)
-		nontrivial := obs.class != 0 || len(obs.created) > 3
-		out.Case(nontrivial, term)
-		vStats(out, cfg, obs)
-		vCompare(out, term, cfg, obs, ex)
+		vOne(out, vGen(rng, out))
 	}
+	if vTier() == "quick" {
+		return
+	}
+	// exhaustive small tier: every configuration of two pipelines (ids from traces/p0, traces/p1,
+	// metrics/p0), receivers and exporters any non-empty subset of {plain 0, connector 10}, zero or one
+	// processor, connector 10 supporting all pairs / same-signal pairs / traces->metrics only.
+	pids := [][2]int{{0, 0}, {0, 1}, {1, 0}}
+	subsets := [][]int{{0}, {10}, {0, 10}}
+	procs := [][]int{nil, {0}}
+	mats := []uint16{0xffff, 0x8421, 1 << 1}
+	var shapes []vPipe
+	for _, r := range subsets {
+		for _, x := range procs {
+			for _, e := range subsets {
+				shapes = append(shapes, vPipe{recv: r, procs: x, exps: e})
+			}
+		}
+	}
+	cnt := 0
+	for a := 0; a < len(pids); a++ {
+		for b := 0; b < len(pids); b++ {
+			if a == b {
+				continue
+			}
+			for _, m := range mats {
+				for _, sa := range shapes {
+					for _, sb := range shapes {
+						pa, pb := sa, sb
+						pa.sig, pa.name = pids[a][0], pids[a][1]
+						pb.sig, pb.name = pids[b][0], pids[b][1]
+						cfg := &vCfg{pipes: []vPipe{pa, pb}, conns: map[int]uint16{10: m}, order: []int{10}}
+						vOne(out, cfg)
+						cnt++
+					}
+				}
+			}
+		}
+	}
+	out.Stat("exhaustive_two_pipeline_configs", cnt)
 }
